@@ -146,7 +146,8 @@ def run(ctx):
     for val, guards in by_selection:
         row = should_absorb_row(guards, is_AT, k)
         want = expected_should_absorb(row)
-        if isinstance(val, tuple) and val[0] == "clone" and list_of(val[1]) == "AB":
+        if (isinstance(val, tuple) and val[0] == "clone" and list_of(val[1]) == "AB") or list_of(val) == "AB":
+            # (a copy of the list, or a shared borrow of the live list: the borrow checker admits no write while it is read)
             got = True
         elif isinstance(val, tuple) and val[0] == "call" and method_name(val[1]) == "new" and not val[2]:
             got = False
@@ -168,7 +169,8 @@ def run(ctx):
             val = sets[-1].b
             row = should_absorb_row([(e.a, e.b) for e in p.events[:p.events.index(sets[-1])] if e.kind == "guard"], is_AT, k)
             want = expected_should_absorb(row)
-            if isinstance(val, tuple) and val[0] == "clone" and list_of(val[1]) == "AB":
+            if (isinstance(val, tuple) and val[0] == "clone" and list_of(val[1]) == "AB") or list_of(val) == "AB":
+            # (a copy of the list, or a shared borrow of the live list: the borrow checker admits no write while it is read)
                 got = True
             elif isinstance(val, tuple) and val[0] == "call" and method_name(val[1]) == "new" and not val[2]:
                 got = False
